@@ -78,16 +78,20 @@ CLAIMED = {
          "value of the look-ahead game (check extension, quiescence, draws, mate distance, ply cap) and the chosen move attains it, for every "
          "window, depth, ordering, killer/cache content. Tie: cache-off searches engine vs model, and engine vs the reference V evaluated in Coq.",
          TB + "evaluation range hypothesis Inv_eval (chess: C17_value under <= 16 pieces a side).", "Coq proof (fuel induction, PVS loop contract, permutation invariance) + value correspondence"),
- "C12": ("Cache ON: theorem C12_mate_in_one (arbitrary game, ANY cache content satisfying an invariant the search maintains - so also after earlier "
-         "iterations and earlier searches of the same position): a completed iteration of any depth >= 1 chooses a mating move whenever one exists; "
-         "C12_empty_cache_ok. Cache neutralised: ALL THREE clauses as theorems (props/C12off.v, chess instance props/C12offchess.v): C12off_mate_in_one, "
-         "C12off_keeps_mate_in_two, C12off_avoids_mate_in_one and the value characterisation (move value = 32767 iff mates, >= 32765 iff keeps a mate in two, "
-         "<= -32766 iff allows a mate in one), from C11; the notions are proved equal to the boolean mate oracle the check evaluates. PARTIAL: clauses 2 and 3 "
-         "with the cache ON are not proved (ply-relative mate scores blur distances; two formulations were refuted with vm_compute counterexamples kept in the "
-         "proof file: after a mate in one is found the remaining root moves are searched with degenerate windows and leave unsound bound entries); with the cache "
-         "on they are judged on the engine's choices by that oracle on sparse positions and sequences of searches sharing the cache. Tie: engine vs model "
-         "(move, score, cache writes) on those sequences.",
-         TB + "key injectivity (no collisions) is a hypothesis; clauses 2-3 with the cache on validated not proved.", "Coq proofs (two-mode cache invariant; mate values of the exact negamax) + oracle-judged correspondence"),
+ "C12": ("Cache ON, arbitrary game: (1) C12_mate_in_one — ANY cache content satisfying an invariant the search maintains (so also after earlier iterations and "
+         "earlier searches of the same position): a completed iteration of any depth >= 1 chooses a mating move whenever one exists. (2) C12_mate_scores_sound_iteration / "
+         "_search (props/C12sound.v, chess instance props/C12soundchess.v) — MATE SCORES NEVER LIE: for any limits, clock, stop timing, depth, and any cache content that is "
+         "mate-sound (the empty cache; whatever earlier searches left: the invariant tt_sound is re-established), a final score >= 32000 means the announced move forces "
+         "checkmate and a score <= -32000 means the position is lost, in the sense of spec/Mate.v (unbounded forced mate over the bare rules); the bounded oracle the check "
+         "evaluates implies that notion (C12_oracle_sound). This is the soundness half of 'keeps a forced mate' with the cache on; ply-relative scores blur the DISTANCE "
+         "of a mate (the engine does prefer a mate in three to a mate in two now and then: witness in DESIGN.md), never its existence. Cache neutralised: ALL THREE clauses "
+         "as theorems (props/C12off.v, props/C12offchess.v) from C11, with the value characterisation. PARTIAL: with the cache ON, completeness of clauses 2-3 (that a mate "
+         "in two is always SEEN, that an avoidable mate in one is always avoided) is not proved and cannot be unconditionally: entries written under a repetition / fifty-move "
+         "draw of one line are reused on another line and the key ignores the clock (graph-history interaction); those are judged on the engine: committed mate corpus and "
+         "12 000 (quick) / 400 000 (thorough) random sparse and maximal-mobility positions x 8-10 sequences of searches sharing the cache, every chosen move judged by a mate "
+         "oracle (validated against the Coq oracle each run) and every mate score confirmed by an exhaustive memoised solver.",
+         TB + "key_sem (a key collision never confuses a won/lost position with one that is not) and key injectivity for clause 1 are hypotheses; completeness of clauses 2-3 "
+         "with the cache on is validated, not proved.", "Coq proofs (mate-soundness invariant of the cache; two-mode invariant for mate in one; mate values of the exact negamax) + oracle-judged hunt on the engine"),
  "C13": ("Theorems C13_prefix (ANY limits, ANY monotone clock, ANY monotone stop oracle, any game/position/depth/initial cache, cache on or off: the "
          "cache writes of the interrupted search are an initial segment of the writes of the same search left uninterrupted, so nothing written stems "
          "from an unfinished subtree and nothing is written after the cut), C13_cut_cache_is_a_full_run_cache, C13_budget (every write below the budget "
